@@ -178,8 +178,10 @@ type CondFact struct {
 }
 
 // DecodeCond decodes conditions of the forms the repository uses:
-//   X.IsZero(), !X.IsZero(), X == 0, X != 0, X <= 0, X < 1, X > 0, X >= 1,
-//   len(X) == 0 ..., X == nil, X != nil.
+//
+//	X.IsZero(), !X.IsZero(), X == 0, X != 0, X <= 0, X < 1, X > 0, X >= 1,
+//	len(X) == 0 ..., X == nil, X != nil.
+//
 // For numeric tests "zero" stands for "not strictly positive" on the side
 // where the test admits zero.
 func DecodeCond(iff *ssa.If) (facts []CondFact) {
